@@ -135,3 +135,11 @@ Theorem C10_literal_parser_total :
 Proof. exact Verif.Properties.C19.C19_parse_lit_total. Qed.
 Print Assumptions C10_literal_parser_total.
 Check Verif.Properties.C19.C19_parse_lit_total.
+
+(* all of findFirstCharDefault (anchor jumps, Boyer-Moore oracle, optimized finders, first-character loop, both
+   directions): at every position of the text it answers Ok -- no index fault, no exhausted loop *)
+Theorem C10_default_finder_answers_ok :
+  ltac:(let t := type of Verif.Properties.C03.C03_finder_default_answers_ok in exact t).
+Proof. exact Verif.Properties.C03.C03_finder_default_answers_ok. Qed.
+Print Assumptions C10_default_finder_answers_ok.
+Check Verif.Properties.C03.C03_finder_default_answers_ok.
